@@ -1,6 +1,9 @@
 (* Extraction of the C14 WAL model. ExtrOcamlBasic only; N / positive / nat stay Coq datatypes. *)
 From Coq Require Import Extraction ExtrOcamlBasic ZArith.
-From V Require Import C14.Model.
+From V Require Import C14.Frame C14.Model.
 Extraction "c14_model.ml" run run_res st0 step open load live reopen_obs recover_ok no_revive_ok
   covered prune_bound is_live entries maxprune cleanup_interval
+  (* the byte-level framing (Frame.v) *)
+  Frame.encode Frame.encode_closed Frame.trailer Frame.decode_full Frame.cut_view Frame.boundary
+  Frame.layout Frame.cut_items Frame.crc32c Frame.pebble_crc Frame.nlen file_of_bytes
   Z.of_N. (* Z.of_N only so that oracle/common.ml's z helpers type-check *)
